@@ -793,8 +793,14 @@ impl Fiber {
       .expect("Unable to write to stderr");
     }
 
-    let message = error[0].to_obj().to_str();
-    writeln!(log, "{}: {}", &*error.class().name(), &*message).expect("Unable to write to stderr");
+    // a subclass of Error with its own initializer may never have set a message
+    if error[0].is_obj_kind(ObjectKind::String) {
+      let message = error[0].to_obj().to_str();
+      writeln!(log, "{}: {}", &*error.class().name(), &*message)
+    } else {
+      writeln!(log, "{}: {}", &*error.class().name(), error[0])
+    }
+    .expect("Unable to write to stderr");
   }
 
   /// Get a value on the stack
